@@ -450,6 +450,153 @@ func (g *replayGen) observe(label, expr string, ty types.Type) (string, bool) {
 	return "", false
 }
 
+// solve reads the values of all nodes (and of retTerms) back from the solver: scalars, lengths and nil-ness first,
+// then - with those pinned - the elements of strings and integer slices.
+func (g *replayGen) solve(o *Obligation, retTerms []*Term, small []*Term) ([]sx, string, bool) {
+	q1 := append(append([]*Term(nil), g.scalars...), retTerms...)
+	// integer package-level variables mentioned by the counterexample
+	var gsyms []*ssa.Global
+	{
+		syms := map[string]Sort{}
+		fns := map[string]bool{}
+		for _, f := range o.Facts {
+			f.collect(syms, fns, map[string]bool{})
+		}
+		o.Goal.collect(syms, fns, map[string]bool{})
+		var names []string
+		for s := range syms {
+			if gl, ok := globalSyms[s]; ok && syms[s] == SInt && isInteger(gl.Type().(*types.Pointer).Elem()) {
+				names = append(names, s)
+			}
+		}
+		sort.Strings(names)
+		for _, s := range names {
+			gsyms = append(gsyms, globalSyms[s])
+			q1 = append(q1, Sym(s, SInt))
+		}
+	}
+	extra := append(append([]*Term(nil), g.range1...), small...)
+	vals, ok := getValues(o.Facts, o.Goal, extra, q1)
+	if !ok {
+		extra = append([]*Term(nil), g.range1...)
+		for _, n := range g.nodes {
+			switch n.kind {
+			case "string":
+				extra = append(extra, Le(App("strlen", SInt, n.t), Num(4096)))
+			case "ints":
+				extra = append(extra, Le(App("slen", SInt, n.t), Num(4096)))
+			}
+		}
+		vals, ok = getValues(o.Facts, o.Goal, extra, q1)
+		if !ok {
+			return nil, "replay not attempted: no small concrete input found by the solver", false
+		}
+	}
+	// distribute phase-1 values, pin them, and ask for the elements
+	k := 0
+	var pins []*Term
+	next := func() (*big.Int, bool, bool) { // int value, bool value, ok
+		e := vals[k]
+		t := q1[k]
+		k++
+		if t.S == SBool {
+			b := e.atom == "true"
+			pins = append(pins, Eq(t, Bool(b)))
+			return nil, b, true
+		}
+		v, ok := sxInt(e)
+		if ok {
+			pins = append(pins, Eq(t, NumB(v)))
+		}
+		return v, false, ok
+	}
+	var q2 []*Term
+	var q2owner []*rnode
+	for _, n := range g.nodes {
+		switch n.kind {
+		case "bool":
+			_, b, _ := next()
+			n.bval = b
+		case "int", "ptr", "iface":
+			v, _, ok := next()
+			if !ok {
+				return nil, "replay not attempted: a value of the counterexample could not be read back", false
+			}
+			n.val = v
+		case "string":
+			v, _, ok := next()
+			if !ok || !v.IsInt64() {
+				return nil, "replay not attempted: a value of the counterexample could not be read back", false
+			}
+			n.length = int(v.Int64())
+			for i := 0; i < n.length; i++ {
+				bt := App("strbyte", SInt, n.t, Num(int64(i)))
+				q2 = append(q2, bt)
+				q2owner = append(q2owner, n)
+				extra = append(extra, And(Ge(bt, Num(0)), Le(bt, Num(255))))
+			}
+		case "ints":
+			v, _, ok := next()
+			l, _, ok2 := next()
+			if !ok || !ok2 || !l.IsInt64() {
+				return nil, "replay not attempted: a value of the counterexample could not be read back", false
+			}
+			n.val = v
+			n.length = int(l.Int64())
+			if v.Sign() == 0 {
+				n.length = 0
+			}
+			earr := heapGetIn(g.heap, elemNameT(n.elemTy), arrayOf(arrayOf(sortOf(n.elemTy))))
+			for i := 0; i < n.length; i++ {
+				et := Select(Select(earr, App("sarr", SInt, n.t)), Add(App("soff", SInt, n.t), Num(int64(i))))
+				q2 = append(q2, et)
+				q2owner = append(q2owner, n)
+				extra = append(extra, rangeFact(et, n.elemTy))
+			}
+		case "bigint":
+			v, _, ok := next()
+			bv, _, ok2 := next()
+			if !ok || !ok2 {
+				return nil, "replay not attempted: a value of the counterexample could not be read back", false
+			}
+			n.val, n.big = v, bv
+		}
+	}
+	var retVals []sx
+	for range retTerms {
+		e := vals[k]
+		t := q1[k]
+		k++
+		retVals = append(retVals, e)
+		if t.S == SBool {
+			pins = append(pins, Eq(t, Bool(e.atom == "true")))
+		} else if v, ok := sxInt(e); ok {
+			pins = append(pins, Eq(t, NumB(v)))
+		}
+	}
+	for _, gl := range gsyms {
+		if v, ok := sxInt(vals[k]); ok {
+			g.globals = append(g.globals, globalVal{gl, v})
+			pins = append(pins, Eq(q1[k], NumB(v)))
+		}
+		k++
+	}
+	if len(q2) > 0 {
+		vals2, ok := getValues(o.Facts, o.Goal, append(extra, pins...), q2)
+		if !ok {
+			return nil, "replay not attempted: the solver did not confirm the element values of the input", false
+		}
+		for i, e := range vals2 {
+			v, ok := sxInt(e)
+			if !ok {
+				return nil, "replay not attempted: a value of the counterexample could not be read back", false
+			}
+			q2owner[i].elems = append(q2owner[i].elems, v)
+		}
+	}
+	return retVals, "", true
+}
+
 // ---- driver ----
 
 var replayAttempts = 0
@@ -553,129 +700,20 @@ func genericReplay(rf *ReplayFile, o *Obligation, p *Program, repo string) {
 			}
 		}
 	}
-	q1 := append(append([]*Term(nil), g.scalars...), retTerms...)
-	// integer package-level variables mentioned by the counterexample
-	var gsyms []*ssa.Global
-	{
-		syms := map[string]Sort{}
-		fns := map[string]bool{}
-		for _, f := range o.Facts {
-			f.collect(syms, fns, map[string]bool{})
-		}
-		o.Goal.collect(syms, fns, map[string]bool{})
-		var names []string
-		for s := range syms {
-			if gl, ok := globalSyms[s]; ok && syms[s] == SInt && isInteger(gl.Type().(*types.Pointer).Elem()) {
-				names = append(names, s)
-			}
-		}
-		sort.Strings(names)
-		for _, s := range names {
-			gsyms = append(gsyms, globalSyms[s])
-			q1 = append(q1, Sym(s, SInt))
-		}
-	}
-	extra := append(append([]*Term(nil), g.range1...), small...)
-	vals, ok := getValues(o.Facts, o.Goal, extra, q1)
+	retVals, note, ok := g.solve(o, retTerms, small)
 	if !ok {
-		extra = append([]*Term(nil), g.range1...)
-		for _, n := range g.nodes {
-			switch n.kind {
-			case "string":
-				extra = append(extra, Le(App("strlen", SInt, n.t), Num(4096)))
-			case "ints":
-				extra = append(extra, Le(App("slen", SInt, n.t), Num(4096)))
-			}
-		}
-		vals, ok = getValues(o.Facts, o.Goal, extra, q1)
-		if !ok {
-			rf.ReplayNote = "replay not attempted: no small concrete input found by the solver"
-			return
-		}
-	}
-	// distribute phase-1 values, pin them, and ask for the elements
-	k := 0
-	var pins []*Term
-	next := func() (*big.Int, bool, bool) { // int value, bool value, ok
-		e := vals[k]
-		t := q1[k]
-		k++
-		if t.S == SBool {
-			b := e.atom == "true"
-			pins = append(pins, Eq(t, Bool(b)))
-			return nil, b, true
-		}
-		v, ok := sxInt(e)
-		if ok {
-			pins = append(pins, Eq(t, NumB(v)))
-		}
-		return v, false, ok
-	}
-	var q2 []*Term
-	var q2owner []*rnode
-	for _, n := range g.nodes {
-		switch n.kind {
-		case "bool":
-			_, b, _ := next()
-			n.bval = b
-		case "int", "ptr", "iface":
-			v, _, ok := next()
-			if !ok {
-				return
-			}
-			n.val = v
-		case "string":
-			v, _, ok := next()
-			if !ok || !v.IsInt64() {
-				return
-			}
-			n.length = int(v.Int64())
-			for i := 0; i < n.length; i++ {
-				bt := App("strbyte", SInt, n.t, Num(int64(i)))
-				q2 = append(q2, bt)
-				q2owner = append(q2owner, n)
-				extra = append(extra, And(Ge(bt, Num(0)), Le(bt, Num(255))))
-			}
-		case "ints":
-			v, _, ok := next()
-			l, _, ok2 := next()
-			if !ok || !ok2 || !l.IsInt64() {
-				return
-			}
-			n.val = v
-			n.length = int(l.Int64())
-			if v.Sign() == 0 {
-				n.length = 0
-			}
-			earr := heapGetIn(g.heap, elemNameT(n.elemTy), arrayOf(arrayOf(sortOf(n.elemTy))))
-			for i := 0; i < n.length; i++ {
-				et := Select(Select(earr, App("sarr", SInt, n.t)), Add(App("soff", SInt, n.t), Num(int64(i))))
-				q2 = append(q2, et)
-				q2owner = append(q2owner, n)
-				extra = append(extra, rangeFact(et, n.elemTy))
-			}
-		case "bigint":
-			v, _, ok := next()
-			bv, _, ok2 := next()
-			if !ok || !ok2 {
-				return
-			}
-			n.val, n.big = v, bv
-		}
+		rf.ReplayNote = note
+		return
 	}
 	predicted := map[string]string{}
 	for i := range retTerms {
-		e := vals[k]
-		t := q1[k]
-		k++
+		e := retVals[i]
 		switch retKinds[i] {
 		case "scalar":
-			if t.S == SBool {
+			if retTerms[i].S == SBool {
 				predicted[retLabels[i]] = e.atom
-				pins = append(pins, Eq(t, Bool(e.atom == "true")))
 			} else if v, ok := sxInt(e); ok {
 				predicted[retLabels[i]] = v.String()
-				pins = append(pins, Eq(t, NumB(v)))
 			}
 		default:
 			if v, ok := sxInt(e); ok {
@@ -684,29 +722,7 @@ func genericReplay(rf *ReplayFile, o *Obligation, p *Program, repo string) {
 				} else {
 					predicted[retLabels[i]] = "nonnil"
 				}
-				pins = append(pins, Eq(t, NumB(v)))
 			}
-		}
-	}
-	for _, gl := range gsyms {
-		if v, ok := sxInt(vals[k]); ok {
-			g.globals = append(g.globals, globalVal{gl, v})
-			pins = append(pins, Eq(q1[k], NumB(v)))
-		}
-		k++
-	}
-	if len(q2) > 0 {
-		vals2, ok := getValues(o.Facts, o.Goal, append(extra, pins...), q2)
-		if !ok {
-			rf.ReplayNote = "replay not attempted: the solver did not confirm the element values of the input"
-			return
-		}
-		for i, e := range vals2 {
-			v, ok := sxInt(e)
-			if !ok {
-				return
-			}
-			q2owner[i].elems = append(q2owner[i].elems, v)
 		}
 	}
 	// Go test
